@@ -39,9 +39,19 @@ AVG_REL_TOL = Fraction(1, 10**25)
 # --------------------------------------------------------------------------- the case
 
 
-def actual_value(x, scale, mixed):
+# Text values travel as their rank in this list (sorted by code point, which is how Python orders str):
+# MIN / MAX / COUNT commute with the order embedding rank -> text, so the integer model applies.
+TEXT_RANKS = sorted(["", " ", "A", "B", "Z", "a", "ab", "abc", "b", "z", "é", "日本", "10", "9"])
+DECIMAL_SCALES = (10, 100, 1000)
+
+
+def actual_value(x, scale, mixed, vkind="number"):
     if x is None:
         return None
+    if vkind == "text":
+        return TEXT_RANKS[x]
+    if vkind == "decimal":
+        return Decimal(x).scaleb(-(len(str(scale)) - 1))  # exactly x / scale
     if scale == 1:
         return x
     if mixed and x % scale == 0:
@@ -52,8 +62,12 @@ def actual_value(x, scale, mixed):
 def actual_rows(case):
     cols = case["columns"]
     vidx = {i for i, c in enumerate(cols) if c in case["vcols"]}
-    s, m = case.get("scale", 1), case.get("mixed", False)
-    return [tuple(actual_value(x, s, m) if i in vidx else x for i, x in enumerate(r)) for r in case["rows"]]
+    s, m, k = case.get("scale", 1), case.get("mixed", False), case.get("vkind", "number")
+    return [tuple(actual_value(x, s, m, k) if i in vidx else x for i, x in enumerate(r)) for r in case["rows"]]
+
+
+def allowed_funcs(case):
+    return ["MIN", "MAX", "COUNT"] if case.get("vkind") == "text" else FUNCS
 
 
 def valid_case(c):
@@ -65,12 +79,21 @@ def valid_case(c):
             return False
         if not isinstance(c["keys"], list) or not c["keys"]:
             return False
-        if c.get("scale", 1) not in (1, 2, 4, 8):
+        vkind = c.get("vkind", "number")
+        if vkind not in ("number", "text", "decimal"):
+            return False
+        if vkind == "decimal":
+            if c.get("scale", 1) not in DECIMAL_SCALES:
+                return False
+        elif vkind == "text":
+            if c.get("scale", 1) != 1:
+                return False
+        elif c.get("scale", 1) not in (1, 2, 4, 8):
             return False
         vset = set(c["vcols"])
         if not vset <= set(cols):
             return False
-        if c.get("scale", 1) != 1 and vset & set(c["keys"]):
+        if (c.get("scale", 1) != 1 or vkind != "number") and vset & set(c["keys"]):
             return False
         for r in c["rows"]:
             if not isinstance(r, list) or len(r) != len(cols):
@@ -78,6 +101,10 @@ def valid_case(c):
             for i, x in enumerate(r):
                 if cols[i] in vset:
                     if not (x is None or (isinstance(x, int) and not isinstance(x, bool))):
+                        return False
+                    if vkind == "text" and x is not None and not 0 <= x < len(TEXT_RANKS):
+                        return False
+                    if vkind == "decimal" and x is not None and abs(x) >= 10**20:
                         return False
                 elif not (x is None or isinstance(x, (bool, int, float, str))):
                     return False
@@ -88,6 +115,8 @@ def valid_case(c):
                 return False
             for q in c["reqs"]:
                 if not (isinstance(q, list) and len(q) == 2 and q[0] in FUNCS):
+                    return False
+                if q[1] != "*" and q[0] not in allowed_funcs(c):
                     return False
                 if q[1] == "*":
                     if q[0] != "COUNT":
@@ -151,12 +180,15 @@ def _frame(case, backing):
     return DataFrame(rows=list(rows), schema=cols)
 
 
-def run_impl(case, backing="list"):
-    """('ok', header, rows) with the implementation's own values, or ('err', exception class name)."""
+def _group_by(df, case):
+    keys = case["keys"]
+    return df.group_by(keys[0] if (len(keys) == 1 and case.get("bare_key")) else list(keys))
+
+
+def _call(gb, case):
+    """One call on the GroupBy object `gb`: ('ok', header, rows) with the implementation's own
+    values, or ('err', exception class name)."""
     try:
-        df = _frame(case, backing)
-        keys = case["keys"]
-        gb = df.group_by(keys[0] if (len(keys) == 1 and case.get("bare_key")) else list(keys))
         if case.get("op", "aggregate") == "groups":
             res = gb.groups()
         else:
@@ -177,10 +209,203 @@ def run_impl(case, backing="list"):
         return ("err", type(e).__name__)
 
 
+def run_impl(case, backing="list"):
+    """A fresh frame, a fresh GroupBy object, one call."""
+    try:
+        gb = _group_by(_frame(case, backing), case)
+    except Exception as e:  # noqa: BLE001
+        return ("err", type(e).__name__)
+    return _call(gb, case)
+
+
+# ---- sequences of calls on one (or two) GroupBy objects of one frame
+
+SUB_KEYS = ("columns", "vcols", "rows", "scale", "mixed", "vkind")
+
+
+def sub_case(case, el):
+    """The single-call case an element of a sequence stands for."""
+    c = {k: case[k] for k in SUB_KEYS if k in case}
+    c["keys"] = case["gbs"][el.get("gb", 0)]
+    c["op"] = el.get("op", "aggregate")
+    c["reqs"] = el.get("reqs", [])
+    for k in ("via", "bare_col", "bare_key"):
+        if k in el:
+            c[k] = el[k]
+    return c
+
+
+def valid_seq_case(c):
+    try:
+        if not isinstance(c.get("gbs"), list) or not c["gbs"] or not isinstance(c.get("seq"), list) or not c["seq"]:
+            return False
+        for el in c["seq"]:
+            if not isinstance(el, dict) or not isinstance(el.get("gb", 0), int) or not 0 <= el.get("gb", 0) < len(c["gbs"]):
+                return False
+            if not valid_case(sub_case(c, el)):
+                return False
+        for b in c.get("backings", ["list"]):
+            if b not in ("list", "gen", "dicts", "schema"):
+                return False
+        return True
+    except Exception:
+        return False
+
+
+def run_impl_seq(case, backing="list"):
+    """One frame, one GroupBy object per entry of `gbs`, the calls of `seq` in order."""
+    df = _frame(case, backing)
+    gbs = {}
+    out = []
+    for el in case["seq"]:
+        sub = sub_case(case, el)
+        g = el.get("gb", 0)
+        try:
+            if g not in gbs:
+                gbs[g] = _group_by(df, sub)
+            out.append(_call(gbs[g], sub))
+        except Exception as e:  # noqa: BLE001
+            out.append(("err", type(e).__name__))
+    return out
+
+
+def oracle_seq(case, ctx=None):
+    """The property on every call of the sequence. Returns (clause|None, results of the first backing).
+
+    Generator-backed frames: orso's lazy frame is a one-pass source (DataFrame.__iter__ hands out the
+    generator itself), so only the call that runs first can see rows.  That call is judged like any
+    other; later calls on the consumed source are observed and counted, never judged."""
+    first = None
+    for b in case.get("backings", ["list"]):
+        res = run_impl_seq(case, b)
+        if first is None:
+            first = res
+        used = set()
+        for i, (el, impl) in enumerate(zip(case["seq"], res)):
+            sub = sub_case(case, el)
+            want = mirror(sub)
+            g = el.get("gb", 0)
+            if b == "gen" and i > 0:
+                if ctx is not None:
+                    ctx.hit("gen-later-call:" + ("as-reference" if compare(sub, impl, want) is None
+                                                 else "err" if impl[0] == "err" else "no-rows" if not impl[2] else "other"))
+                continue
+            cl = compare(sub, impl, want)
+            if cl is not None:
+                if g in used:
+                    cl = "a later call on the same GroupBy object: " + cl
+                elif i > 0:
+                    cl = "a call on a second GroupBy object of the same frame: " + cl
+                if b != "list":
+                    cl += " [%s-backed]" % b
+                return cl, res
+            used.add(g)
+    return None, first
+
+
+def model_lines_seq(case):
+    """One driver line per GroupBy object: its calls in order."""
+    lines = []
+    for g, keys in enumerate(case["gbs"]):
+        ops = []
+        for el in case["seq"]:
+            if el.get("gb", 0) == g:
+                ops.append(["groups"] if el.get("op", "aggregate") == "groups" else ["aggregate", el["reqs"]])
+        lines.append("C12 sequence " + wire.line(case["columns"], case["rows"], keys, ops))
+    return lines
+
+
+def model_results_seq(case, texts):
+    """The model's result for every element of the sequence, in the mirror's form."""
+    per_gb = []
+    for t in texts:
+        if not t.startswith("ok "):
+            raise InfraError("model rejected sequence case %r: %r" % (case, t))
+        (m,) = wire.dec_all(t[3:])
+        per_gb.append(m)
+    pos = [0] * len(per_gb)
+    out = []
+    for el in case["seq"]:
+        g = el.get("gb", 0)
+        m = per_gb[g]
+        if m[0] == "err":
+            out.append(("err", m[1]))
+        else:
+            out.append(_unscale(sub_case(case, el), m[1][pos[g]]))
+            pos[g] += 1
+    return out
+
+
+def evaluate_seq(ctx, cases):
+    lines, spans = [], []
+    for c in cases:
+        if not valid_seq_case(c):
+            raise InfraError("generator produced an invalid sequence case: %r" % (c,))
+        ls = model_lines_seq(c)
+        spans.append((len(lines), len(ls)))
+        lines.extend(ls)
+    mouts = ctx.model.batch(lines)
+    for c, (lo, n) in zip(cases, spans):
+        subs = [sub_case(c, el) for el in c["seq"]]
+        for sub in subs:
+            if not in_domain(sub):
+                raise InfraError("generator left the domain where == and structural equality coincide: %r" % (c,))
+        wants = [mirror(sub) for sub in subs]
+        mres = model_results_seq(c, mouts[lo:lo + n])
+        for sub, w, m in zip(subs, wants, mres):
+            if not same_expected(w, m):
+                raise InfraError("Lean model and Python mirror differ inside a sequence %r:\n model  %r\n mirror %r" % (c, m, w))
+        ctx.case(c, len(c["rows"]) >= 2 and len(c["seq"]) >= 2)
+        ctx.hit("seq-len:%s" % (len(c["seq"]) if len(c["seq"]) < 4 else "4+"))
+        ctx.hit("seq-objects:%d" % len(c["gbs"]))
+        ctx.hit("rows:%s" % (len(c["rows"]) if len(c["rows"]) < 7 else "7-19" if len(c["rows"]) < 20 else "20+"))
+        for el in c["seq"]:
+            ctx.hit("seq-op:" + ("groups" if el.get("op") == "groups" else el.get("via", "aggregate")))
+        if any(a == b for a, b in zip(c["seq"], c["seq"][1:])):
+            ctx.hit("seq-identical-repeat")
+        for b in c.get("backings", ["list"]):
+            ctx.hit("backing:" + b)
+        if len(ctx.violations) >= 4:
+            return
+        clause, impl = oracle_seq(c, ctx)
+        if clause is not None and _norm(clause) in _SEEN_CLAUSES.setdefault(id(ctx), set()):
+            ctx.hit("violation-dup:" + _norm(clause))
+            continue
+        if clause is not None:
+            _SEEN_CLAUSES[id(ctx)].add(_norm(clause))
+
+            def still(c2, clause=clause):
+                if not valid_seq_case(c2) or not all(in_domain(sub_case(c2, el)) for el in c2["seq"]):
+                    return False
+                try:
+                    return _norm(oracle_seq(c2)[0]) == _norm(clause)
+                except InfraError:
+                    return False
+            c_min = c if ctx.replaying else shrink(c, still)
+            cl2, impl2 = oracle_seq(c_min)
+            try:
+                m2 = model_results_seq(c_min, ctx.model.batch(model_lines_seq(c_min)))
+            except InfraError:
+                m2 = None
+            ctx.fail(c_min, cl2 or clause, impl=[_show(r) for r in impl2], model=None if m2 is None else [_show(r) for r in m2])
+            continue
+        for i, (sub, r, m) in enumerate(zip(subs, impl, mres)):
+            if c.get("backings", ["list"])[0] == "gen" and i > 0:
+                continue
+            cl = compare(sub, r, m)
+            if cl is not None:
+                ctx.disagree(c, [_show(x) for x in impl], [_show(x) for x in mres], what="call %d: %s" % (i, cl))
+                break
+        else:
+            ctx.hit("sequence:every-call-as-alone")
+
+
 # --------------------------------------------------------------------------- mirror of the spec
 
 
 def exact(v):
+    if isinstance(v, str):
+        return v  # text values: only MIN, MAX and COUNT are asked of them
     if isinstance(v, bool) or v is None:
         raise InfraError("not a number: %r" % (v,))
     return Fraction(v)
@@ -256,6 +481,10 @@ def model_result(case, text):
     if not text.startswith("ok "):
         raise InfraError("model rejected case %r: %r" % (case, text))
     (m,) = wire.dec_all(text[3:])
+    return _unscale(case, m)
+
+
+def _unscale(case, m):
     if m[0] == "err":
         return ("err", m[1])
     header, rows = m[1], m[2]
@@ -278,6 +507,8 @@ def model_result(case, text):
                 cells.append(Fraction(v[1], v[2] * s))
             elif f == "COUNT":
                 cells.append(Fraction(v))
+            elif case.get("vkind") == "text":
+                cells.append(TEXT_RANKS[v])
             else:
                 cells.append(Fraction(v, s))
         out.append(cells)
@@ -310,6 +541,8 @@ def cell_ok(func, got, want):
     """Is the implementation's cell `got` the aggregate `want` (None | Fraction)?"""
     if want is None:
         return got is None
+    if isinstance(want, str):
+        return isinstance(got, str) and got == want
     if got is None or isinstance(got, bool):
         return False
     if func == "COUNT":
@@ -445,6 +678,10 @@ _SEEN_CLAUSES = {}
 
 def evaluate(ctx, cases):
     cases = list(cases)
+    seqs = [c for c in cases if "seq" in c]
+    if seqs:
+        evaluate_seq(ctx, seqs)
+        cases = [c for c in cases if "seq" not in c]
     if not cases:
         return
     lines = [model_line(c) for c in cases]
@@ -482,7 +719,7 @@ def evaluate(ctx, cases):
                 ctx.hit("repeated-column")
             if want[0] == "ok" and any(x is None for r in want[2] for x in r[: len(set("%s(%s)" % (f, cc) for f, cc in c["reqs"]))]):
                 ctx.hit("null-aggregate-cell")
-            ctx.hit("scale:%d%s" % (c.get("scale", 1), "m" if c.get("mixed") else ""))
+            ctx.hit("values:%s scale:%d%s" % (c.get("vkind", "number"), c.get("scale", 1), "m" if c.get("mixed") else ""))
         if len(ctx.violations) >= 4:
             return  # enough distinct failing inputs; do not spend the budget on more of the same
         clause, impl = oracle(c)
@@ -611,14 +848,23 @@ def random_case(ctx, big=False):
         n = rng.choice([30, 60, 120, 250])
     else:
         n = rng.choice([0, 1, 2, 3, 4, 5, 6, 8, 12, 20])
-    scale, mixed = rng.choice([(1, False), (1, False), (4, False), (4, True), (8, True)])
-    mag = rng.choice([3, 3, 20, 1000, 2**40]) if scale > 1 else rng.choice([3, 3, 20, 1000, 2**40, 2**64, 10**30])
+    vkind = rng.choice(["number"] * 8 + ["text", "decimal"])
+    if vkind == "text":
+        scale, mixed, mag = 1, False, None
+    elif vkind == "decimal":
+        scale, mixed = rng.choice(DECIMAL_SCALES), False
+        mag = rng.choice([3, 20, 1000, 10**15])
+    else:
+        scale, mixed = rng.choice([(1, False), (1, False), (4, False), (4, True), (8, True)])
+        mag = rng.choice([3, 3, 20, 1000, 2**40]) if scale > 1 else rng.choice([3, 3, 20, 1000, 2**40, 2**64, 10**30])
+    funcs = ["MIN", "MAX", "COUNT"] if vkind == "text" else FUNCS
     pnull = rng.choice([0.0, 0.2, 0.5, 0.9])
     small = [[gen_key_value(rng, f) for f in families] for _ in range(rng.choice([1, 2, 3, 5]))]
     rows = []
     for _ in range(n):
         key = list(rng.choice(small)) if rng.random() < 0.8 else [gen_key_value(rng, f) for f in families]
-        vals = [None if rng.random() < pnull else rng.randint(-mag, mag) for _ in vcols]
+        vals = [None if rng.random() < pnull else
+                (rng.randrange(len(TEXT_RANKS)) if vkind == "text" else rng.randint(-mag, mag)) for _ in vcols]
         full = key + vals + ["p" for _ in extra]
         rows.append([full[i] for i in order])
     cols = [cols[i] for i in order]
@@ -634,12 +880,14 @@ def random_case(ctx, big=False):
     keys = list(kcols)
     rng.shuffle(keys)
     c = {"columns": cols, "vcols": list(vcols), "keys": keys, "rows": rows, "scale": scale, "mixed": mixed}
+    if vkind != "number":
+        c["vkind"] = vkind
     r = rng.random()
     if r < 0.08:
         c["op"] = "groups"
         c["reqs"] = []
     elif r < 0.25:
-        via = rng.choice(["min", "max", "sum", "avg", "count"])
+        via = rng.choice(["min", "max", "count"] if vkind == "text" else ["min", "max", "sum", "avg", "count"])
         c["via"] = via
         if via == "count":
             c["reqs"] = [["COUNT", "*"]]
@@ -649,7 +897,7 @@ def random_case(ctx, big=False):
             c["bare_col"] = rng.random() < 0.5
     else:
         k = rng.choice([1, 1, 2, 2, 3, 3, 4, 6])
-        c["reqs"] = [rng.choice([["COUNT", "*"]] + [[f, v] for f in FUNCS for v in vcols]) for _ in range(k)]
+        c["reqs"] = [rng.choice([["COUNT", "*"]] + [[f, v] for f in funcs for v in vcols]) for _ in range(k)]
     if len(keys) == 1:
         c["bare_key"] = rng.random() < 0.5
     c["backings"] = rng.choice([["list"], ["gen"], ["list", "gen"], ["list", "gen", "dicts"], ["dicts"], ["schema", "gen"]])
@@ -682,6 +930,88 @@ def collision_case(ctx):
     reqs = rng.choice([ALL_SIX, [["SUM", "v"], ["SUM", "w"], ["COUNT", "*"]], [["COUNT", "*"]]])
     return {"columns": cols, "vcols": ["v", "w"], "keys": cols[:nk], "rows": rows, "reqs": reqs, "scale": 1,
             "backings": rng.choice([["list"], ["gen"]]), "all_perms": n <= 4}
+
+
+SEQ_ALPHABET = [
+    {"op": "aggregate", "reqs": [["SUM", "v"]]},
+    {"op": "aggregate", "reqs": [["COUNT", "*"]], "via": "count"},
+    {"op": "aggregate", "reqs": [["COUNT", "v"], ["MAX", "v"]]},
+    {"op": "aggregate", "reqs": [["SUM", "v"]], "via": "sum", "bare_col": True},
+    {"op": "aggregate", "reqs": [["AVG", "w"]], "via": "avg"},
+    {"op": "aggregate", "reqs": [["MIN", "v"]], "via": "min"},
+    {"op": "groups", "reqs": []},
+    {"op": "aggregate", "reqs": [["SUM", "v"], ["SUM", "w"], ["COUNT", "*"]]},
+]
+SEQ_FRAMES = [
+    [],
+    [[-1, "a", 1, None]],
+    [[-1, "a", 1, 5], [-2, "a", 2, None]],
+    [[-1, "a", None, 5], [-2, "a", 2, None], [-1, "a", None, None]],
+    [[0, "a", 3, 5], [0, "b", 1, 7], [2**61 - 1, "a", 2, 6], [0, "a", 4, None]],
+    [[None, "", 2, None], [-2, "", None, None], [None, "", 1, 4], [-1, "x", 1, 1], [-2, "", None, 9]],
+]
+
+
+def seq_base(rows, seq, gbs, backings):
+    return {"columns": ["k", "j", "v", "w"], "vcols": ["v", "w"], "rows": [list(r) for r in rows], "scale": 1,
+            "gbs": [list(g) for g in gbs], "seq": [dict(e) for e in seq], "backings": list(backings)}
+
+
+def exhaustive_sequences(ctx, maxlen):
+    """Every sequence of 1..maxlen calls over SEQ_ALPHABET on one GroupBy object, and the same
+    sequences alternating between two GroupBy objects of the frame with the key columns in both orders."""
+    i = 0
+    for rows in SEQ_FRAMES:
+        for n in range(1, maxlen + 1):
+            for seq in itertools.product(SEQ_ALPHABET, repeat=n):
+                i += 1
+                back = ["list"] if i % 5 else ["list", ["gen", "dicts", "schema"][(i // 5) % 3]]
+                yield seq_base(rows, seq, [["k", "j"]], back)
+                if n >= 2:
+                    alt = [dict(e, gb=j % 2) for j, e in enumerate(seq)]
+                    yield seq_base(rows, alt, [["k", "j"], ["j", "k"]], ["list"])
+
+
+def random_seq_case(ctx, big=False):
+    rng = ctx.rng
+    while True:
+        c = random_case(ctx, big)
+        if c.get("op") != "groups" and "nope" not in c["keys"]:
+            break
+    vcols = c["vcols"]
+    keys = c["keys"]
+    gbs = [list(keys)]
+    if rng.random() < 0.5:
+        k2 = list(keys)
+        rng.shuffle(k2)
+        gbs.append(k2)
+        if rng.random() < 0.3:
+            gbs.append(list(reversed(keys)))
+    seq = []
+    for _ in range(rng.choice([1, 2, 2, 3, 3, 4, 6])):
+        r = rng.random()
+        if seq and r < 0.25:
+            el = dict(rng.choice(seq))  # an identical request again (possibly on another object)
+        elif r < 0.4:
+            el = {"op": "groups", "reqs": []}
+        elif r < 0.6:
+            via = rng.choice(["min", "max", "count"] if c.get("vkind") == "text" else ["min", "max", "sum", "avg", "count"])
+            if via == "count":
+                el = {"op": "aggregate", "via": "count", "reqs": [["COUNT", "*"]]}
+            else:
+                el = {"op": "aggregate", "via": via, "bare_col": rng.random() < 0.5,
+                      "reqs": [[WRAPPERS[via], rng.choice(vcols)] for _ in range(rng.choice([1, 1, 2]))]}
+        else:
+            el = {"op": "aggregate", "reqs": [rng.choice([["COUNT", "*"]] + [[f, v] for f in allowed_funcs(c) for v in vcols])
+                                              for _ in range(rng.choice([1, 1, 2, 3, 4]))]}
+        el["gb"] = rng.randrange(len(gbs))
+        if len(gbs[el["gb"]]) == 1:
+            el["bare_key"] = bool(c.get("bare_key"))
+        seq.append(el)
+    out = {k: c[k] for k in SUB_KEYS if k in c}
+    out.update({"gbs": gbs, "seq": seq,
+                "backings": rng.choice([["list"], ["list"], ["gen"], ["dicts"], ["schema"], ["list", "gen"]])})
+    return out
 
 
 def corpus_cases():
@@ -762,6 +1092,11 @@ def run(ctx):
                     yield base(rows, reqs, all_perms=True, backings=["list", "gen"])
     t = _batches(ctx, e4())
     scope.append("all permutations of %d frames of 2..5 rows (plus: E1/E2 are closed under permutation)" % (t // len(FIXED_REQS)))
+    # E5: every sequence of <= 3 calls over 8 calls on ONE GroupBy object (and alternating between two)
+    t = _batches(ctx, exhaustive_sequences(ctx, 3), size=1000)
+    scope.append("all sequences of 1..3 calls over %d calls (aggregate lists, sum/avg/min/count wrappers, groups) on one GroupBy "
+                 "object, and alternating between two objects with the key columns in both orders, on %d frames (%d cases)"
+                 % (len(SEQ_ALPHABET), len(SEQ_FRAMES), t))
     ctx.note("exhaustive_scope", scope)
     ctx.exhaustive = False
     # the dedicated stream of unequal keys with equal hashes
@@ -769,7 +1104,8 @@ def run(ctx):
     n_random = ctx.scale(4000, 60000)
     done = 0
     while done < n_random and ctx.time_left() > (8 if ctx.tier == "quick" else 60):
-        evaluate(ctx, [random_case(ctx, big=(i % 25 == 24)) for i in range(500)])
+        evaluate(ctx, [random_case(ctx, big=(i % 25 == 24)) for i in range(350)]
+                 + [random_seq_case(ctx, big=(i % 25 == 24)) for i in range(150)])
         done += 500
     ctx.note("random_cases", done)
 
@@ -779,7 +1115,8 @@ def intensify(ctx):
     import time
     t0 = time.time()
     while time.time() - t0 < t_end and not ctx.violations:
-        evaluate(ctx, [random_case(ctx) for _ in range(500)] + [collision_case(ctx) for _ in range(100)])
+        evaluate(ctx, [random_case(ctx) for _ in range(400)] + [random_seq_case(ctx) for _ in range(200)]
+                 + [collision_case(ctx) for _ in range(100)])
 
 
 def replay(ctx, case):
